@@ -10,6 +10,14 @@ def main():
     checks = []
     for pid in sorted(registry.PROPS):
         P = registry.PROPS[pid]
+        open_f = [f for f in registry.load_findings() if f.get("property") == pid]
+        cat = P.get("level", "proof")
+        txt = P.get("level_text", P.get("explanation", ""))
+        if open_f and cat == "proof":
+            # a proof-level claim needs every obligation discharged; with a recorded, unrepaired defect the honest level is `other`
+            cat = "other"
+            txt = ("Contract-based proof (Verus) of every clause EXCEPT the recorded known finding(s) - %s - which the check re-derives on every run and reports as "
+                   "KNOWN-FINDING; hence level `other`, not `proof`. " % "; ".join(f["obligation"] for f in open_f)) + txt
         checks.append(dict(
             property_id=pid,
             quick_cmd="./check %s --tier quick" % pid,
@@ -17,7 +25,7 @@ def main():
             evidence_file="/verif/evidence/%s.json" % pid,
             replay_cmd_template="./check %s --replay {path}" % pid,
             engine="vx",
-            level_claimed=dict(category=P.get("level", "proof"), text=P.get("level_text", P.get("explanation", "")),
+            level_claimed=dict(category=cat, text=txt,
                                design_ref="DESIGN.md §5 %s" % pid),
             level_note="; ".join(P.get("assumptions", [])) or "see evidence trusted_base",
             technique=P.get("technique", "contract-based deductive verification: Verus discharges requires/ensures/invariant/decreases "
